@@ -4,6 +4,7 @@ import (
 	"fmt"
 	"go/token"
 	"go/types"
+	"strings"
 
 	"golang.org/x/tools/go/ssa"
 )
@@ -101,7 +102,14 @@ func init() {
 	intrinsicsByName[bi+"Cmp"] = func(e *Env, st *State, args []Val, rt types.Type, c *ssa.CallCommon) []Out {
 		x, y := e.bigVal(st, args[0], pos(c)), e.bigVal(st, args[1], pos(c))
 		w := 64
-		r := tIte(tApp("<", x, y), bvLit(^uint64(0), w), tIte(tEq(x, y), bvLit(0, w), bvLit(1, w)))
+		lt, eq := tApp("<", x, y), tEq(x, y)
+		if strings.HasPrefix(x, "(bv2nat ") && strings.HasPrefix(y, "(bv2nat ") {
+			// both operands are unsigned machine integers lifted by SetUint64: compare them as bit-vectors
+			// (bv2nat is monotone and injective; keeps the query inside the bit-vector theory)
+			bx, by := x[len("(bv2nat "):len(x)-1], y[len("(bv2nat "):len(y)-1]
+			lt, eq = tApp("bvult", bx, by), tEq(bx, by)
+		}
+		r := tIte(lt, bvLit(^uint64(0), w), tIte(eq, bvLit(0, w), bvLit(1, w)))
 		return one(st, termVal(types.Typ[types.Int], bvSort(w), r))
 	}
 	intrinsicsByName[bi+"Sign"] = func(e *Env, st *State, args []Val, rt types.Type, c *ssa.CallCommon) []Out {
